@@ -367,6 +367,9 @@ def r2_one_table(ctx, tables, visitors):
     if render(dec[0].get('init')) != '(call GetDecoderTable<%s> )' % INTERP:
         ctx.report(R, ('src/interpreter.h', 'Teakra::Interpreter', dec[0].get('l', 0)), dec[0].get('l', 0),
                    'Interpreter::decoders', 'interpreter dispatch table is not GetDecoderTable<Interpreter>()')
+    # the assembler is generated from the disassembler's view of every first word (shared rule body with C05.T3)
+    from .c05 import t3_parser
+    t3_parser(ctx, R)
     for fid, want in (('Teakra::Disassembler::NeedExpansion(unsigned short)', 'Decode<%s>' % DISASM),):
         f = ctx.fn(fid)
         ctx.inst(R)
